@@ -329,9 +329,11 @@ fn verif_harness_ext(toks: &[&str]) -> String {
             let dbg = format!("{:?}", rx);
             let finite = !(dbg.contains("NaN") || dbg.contains("inf"));
             format!(
-                "rx {} {} {} {} {}|{}|samples={} counter={} checks={:?} flushed={} finite={}",
+                "rx {} {} {} {} {}|{}|samples={} counter={} checks={} flushed={} finite={}",
                 cfg.rate, cfg.prefix_err, cfg.max_invalid, cfg.preamble_err, items, evs,
-                audio_run.len(), consumed, out.consumed_checks,
+                audio_run.len(), consumed,
+                if out.consumed_checks.is_empty() { "-".to_owned() } else {
+                    out.consumed_checks.iter().map(|(a, b)| format!("{}:{}", a, b)).collect::<Vec<_>>().join(",") },
                 if flushed.is_empty() { "-".to_owned() } else { flushed.join(";") },
                 finite as u8
             )
